@@ -351,7 +351,7 @@ def Op.isLeak : Op P → Bool
 
 /-- the operations that end in `heap_build` (or produce an empty queue) whatever the order was before -/
 def Op.rebuilds : Op P → Bool
-  | .retainMut _ | .iterMut false _ | .fromVec _ | .fromIter _ | .deserialize _ | .convert | .append _ | .clear
+  | .retainMut _ | .iterMut false _ | .fromVec _ | .fromIter _ _ | .deserialize _ _ | .convert | .append _ | .clear
   | .drain => true
   | _ => false
 
@@ -595,25 +595,28 @@ theorem hist_step_safe {q : Q P} {op : Op P} (hq : QWF q) (hl : op.Legal) :
         simp only [step, hrun, heapBuildK, he, bind, Except.bind, pure, Except.pure]
         exact ⟨_, _, rfl, hwf⟩
   | extend lo xs =>
+    have hlo : lo < capLimit := Nat.lt_of_le_of_lt hl.1 hl.2
     cases k
-    · obtain ⟨s', he, hwf, _⟩ := MaxQ.extend_safe h lo xs; hist_close he, hwf
-    · obtain ⟨s', he, hwf, _⟩ := DQ.extend_safe h lo xs; hist_close he, hwf
-  | append xs =>
+    · obtain ⟨s', he, hwf, _⟩ := MaxQ.extend_safe h lo xs hlo; hist_close he, hwf
+    · obtain ⟨s', he, hwf, _⟩ := DQ.extend_safe h lo xs hlo; hist_close he, hwf
+  | append o =>
+    have ho : o.WF := hl
     cases k
-    · obtain ⟨s', o', he, hwf, _⟩ := MaxQ.append_safe h (wf_fromVec xs); hist_close he, hwf
-    · obtain ⟨s', o', he, hwf, _⟩ := DQ.append_safe h (wf_fromVec xs); hist_close he, hwf
+    · obtain ⟨s', o', he, hwf, _⟩ := MaxQ.append_safe h ho; hist_close he, hwf
+    · obtain ⟨s', o', he, hwf, _⟩ := DQ.append_safe h ho; hist_close he, hwf
   | fromVec xs =>
     cases k
     · obtain ⟨s', he, hwf, _⟩ := MaxQ.fromVec_safe xs; hist_close he, hwf
     · obtain ⟨s', he, hwf, _⟩ := DQ.fromVec_safe xs; hist_close he, hwf
-  | fromIter xs =>
+  | fromIter lo xs =>
+    have hlo : lo < capLimit := Nat.lt_of_le_of_lt hl.1 hl.2
     cases k
-    · obtain ⟨s', he, hwf, _⟩ := MaxQ.fromIter_safe xs; hist_close he, hwf
-    · obtain ⟨s', he, hwf, _⟩ := DQ.fromIter_safe xs; hist_close he, hwf
-  | deserialize xs =>
+    · obtain ⟨s', he, hwf, _⟩ := MaxQ.fromIter_safe lo xs hlo; hist_close he, hwf
+    · obtain ⟨s', he, hwf, _⟩ := DQ.fromIter_safe lo xs hlo; hist_close he, hwf
+  | deserialize hint xs =>
     cases k
-    · obtain ⟨s', he, hwf, _⟩ := MaxQ.deserialize_safe xs; hist_close he, hwf
-    · obtain ⟨s', he, hwf, _⟩ := DQ.deserialize_safe xs; hist_close he, hwf
+    · obtain ⟨s', he, hwf, _⟩ := MaxQ.deserialize_safe hint xs; hist_close he, hwf
+    · obtain ⟨s', he, hwf, _⟩ := DQ.deserialize_safe hint xs; hist_close he, hwf
   | convert =>
     cases k
     · obtain ⟨s', he, hwf, _⟩ := DQ.ofStore_safe h; hist_close he, hwf
@@ -745,22 +748,24 @@ theorem hist_step_rebuild {q : Q P} {op : Op P} (hq : QWF q) (hl : op.Legal) (hr
       · obtain ⟨s', he, hwf, _, _, hm⟩ := DQ.heapBuild_spec hwf1
         simp only [step, hrun, heapBuildK, he, bind, Except.bind, pure, Except.pure]
         exact ⟨_, _, rfl, (⟨hwf, hm⟩ : DQ.Inv s')⟩
-  | append xs =>
+  | append o =>
+    have ho : o.WF := hl
     cases k
-    · obtain ⟨s', o', he, hinv, _⟩ := MaxQ.append_spec h (wf_fromVec xs); hist_close he, hinv
-    · obtain ⟨s', o', he, hinv, _⟩ := DQ.append_spec h (wf_fromVec xs); hist_close he, hinv
+    · obtain ⟨s', o', he, hinv, _⟩ := MaxQ.append_spec h ho; hist_close he, hinv
+    · obtain ⟨s', o', he, hinv, _⟩ := DQ.append_spec h ho; hist_close he, hinv
   | fromVec xs =>
     cases k
     · obtain ⟨s', he, hinv, _⟩ := MaxQ.fromVec_spec xs; hist_close he, hinv
     · obtain ⟨s', he, hinv, _⟩ := DQ.fromVec_spec xs; hist_close he, hinv
-  | fromIter xs =>
+  | fromIter lo xs =>
+    have hlo : lo < capLimit := Nat.lt_of_le_of_lt hl.1 hl.2
     cases k
-    · obtain ⟨s', he, hinv, _⟩ := MaxQ.fromIter_spec xs; hist_close he, hinv
-    · obtain ⟨s', he, hinv, _⟩ := DQ.fromIter_spec xs; hist_close he, hinv
-  | deserialize xs =>
+    · obtain ⟨s', he, hinv, _⟩ := MaxQ.fromIter_spec lo xs hlo; hist_close he, hinv
+    · obtain ⟨s', he, hinv, _⟩ := DQ.fromIter_spec lo xs hlo; hist_close he, hinv
+  | deserialize hint xs =>
     cases k
-    · obtain ⟨s', he, hinv, _⟩ := MaxQ.deserialize_spec xs; hist_close he, hinv
-    · obtain ⟨s', he, hinv, _⟩ := DQ.deserialize_spec xs; hist_close he, hinv
+    · obtain ⟨s', he, hinv, _⟩ := MaxQ.deserialize_spec hint xs; hist_close he, hinv
+    · obtain ⟨s', he, hinv, _⟩ := DQ.deserialize_spec hint xs; hist_close he, hinv
   | convert =>
     cases k
     · obtain ⟨s', he, hinv, _⟩ := DQ.ofStore_spec h; hist_close he, hinv
@@ -836,9 +841,10 @@ theorem hist_step_inv {q : Q P} {op : Op P} (hq : QInv q) (hl : op.Legal) (hn : 
     · exact ⟨_, _, rfl, hq⟩
     · obtain ⟨s', r, he, hinv⟩ := DQ.hist_peekMaxMutWrite_inv hq w hl; hist_close he, hinv
   | extend lo xs =>
+    have hlo : lo < capLimit := Nat.lt_of_le_of_lt hl.1 hl.2
     cases k
-    · obtain ⟨s', he, hinv, _⟩ := MaxQ.extend_spec hq lo xs; hist_close he, hinv
-    · obtain ⟨s', he, hinv, _⟩ := DQ.extend_spec hq lo xs; hist_close he, hinv
+    · obtain ⟨s', he, hinv, _⟩ := MaxQ.extend_spec hq lo xs hlo; hist_close he, hinv
+    · obtain ⟨s', he, hinv, _⟩ := DQ.extend_spec hq lo xs hlo; hist_close he, hinv
   | capacityOp => exact ⟨_, _, rfl, hq⟩
   | iterMut leak prog =>
     cases leak with
